@@ -411,6 +411,10 @@ pub const RUNTIME_FAULTS: &[(&str, u32)] = &[
     ("if #false, (not 3) {\n  node zz6\n}", 10),
     ("if (is-null 1), (eq 1 \"x\") {\n  node zz6\n} else {\n  node zz5\n}", 27),
     ("if #false {\n  node zz6\n} elif #false, (nosuchfn 1) {\n  node zz5\n}", 20),
+    // the faulty VALUE of a variable that another statement forces (lazy: the error belongs to the defining statement)
+    ("let zz9 = (plus \"a\" 1)\nnode zz8\nattr (zz8) v = zz9", 11),
+    ("let zz9 = (not 3)\nlet zz4 = [zz9]\nprint zz4", 10),
+    ("var zz9 = (nosuchfn 1)\nnode zz8\nif #true {\n  attr (zz8) v = zz9\n}", 20),
     ("print zz_undefined_at_runtime_is_static", 0),
 ];
 /// Insert one runtime fault at a random statement position (any depth) of a random stanza.
